@@ -40,6 +40,12 @@ def run(ctx):
             seen.add(k)
             ctx.violation('C16:' + k, w, {'fen': posgen.fields_to_fen(g), 'game_fields': g, 'mirror_fields': posgen.mirror_fields(g), 'engine': {'eval': e, 'mirror': em, 'side_flipped': ef, 'perturbed': ep}})
     if ctx.model_ok:
+        # the mirror function of the theorem (Model/Sym.v, extracted) is the mirror this check applies: placement, occupancies, mover
+        mm = ctx.model_batch(['mirror ' + g for g in wfpos])
+        bad = [(g, m) for g, m in zip(wfpos, mm) if m.split()[:16] != posgen.mirror_fields(g).split()[:16]]
+        ctx.cov['coq_mirror_equals_check_mirror_on'] = len(wfpos) - len(bad)
+        if bad:
+            ctx.broken.append(vlib.Broken('the extracted Sym.mirror and the mirror used by the metamorphic check differ', json.dumps({'game_fields': bad[0][0], 'coq_mirror': bad[0][1], 'check_mirror': posgen.mirror_fields(bad[0][0])})))
         mod = ctx.model_batch(lines)
         dis = [(l, a, b) for l, a, b in zip(lines, eng, mod) if a != b]
         ctx.cov['model_vs_engine_disagreements'] = ctx.cov.get('model_vs_engine_disagreements', 0) + len(dis)
